@@ -273,6 +273,8 @@ pub struct FrontendCtx<'a, R: FileManager> {
     jsdoc_cache_by_file: BTreeMap<BffFileName, JsdocFileCache>,
     // nesting depth of extract_type / typeof_expr, to stop on declarations that refer to themselves
     recursion_depth: usize,
+    // length of the chain of imports / re-exports being followed, to stop on re-exports that lead back to themselves
+    resolution_depth: usize,
 }
 
 const MAX_RECURSION_DEPTH: usize = 200;
@@ -454,6 +456,23 @@ trait TypeModuleWalker<'a, R: FileManager + 'a, U> {
     }
 
     fn get_addressed_item(&mut self, addr: &ModuleItemAddress, err_anchor: &Anchor) -> Res<U> {
+        if self.get_ctx().resolution_depth > MAX_RECURSION_DEPTH {
+            return Err(self.get_ctx().box_error(
+                err_anchor,
+                DiagnosticInfoMessage::CannotNotResolveType(addr.clone()),
+            ));
+        }
+        self.get_ctx().resolution_depth += 1;
+        let res = self.get_addressed_item_unguarded(addr, err_anchor);
+        self.get_ctx().resolution_depth -= 1;
+        res
+    }
+
+    fn get_addressed_item_unguarded(
+        &mut self,
+        addr: &ModuleItemAddress,
+        err_anchor: &Anchor,
+    ) -> Res<U> {
         let parsed_module = self.get_ctx().get_or_fetch_file(&addr.file, err_anchor)?;
         match addr.visibility {
             Visibility::Local => {
@@ -833,6 +852,19 @@ trait ValueModuleWalker<'a, R: FileManager + 'a, U> {
         }
     }
     fn get_addressed_item(&mut self, addr: &ModuleItemAddress, anchor: &Anchor) -> Res<U> {
+        if self.get_ctx().resolution_depth > MAX_RECURSION_DEPTH {
+            return self.get_ctx().error(
+                anchor,
+                DiagnosticInfoMessage::CannotNotResolveValue(addr.clone()),
+            );
+        }
+        self.get_ctx().resolution_depth += 1;
+        let res = self.get_addressed_item_unguarded(addr, anchor);
+        self.get_ctx().resolution_depth -= 1;
+        res
+    }
+
+    fn get_addressed_item_unguarded(&mut self, addr: &ModuleItemAddress, anchor: &Anchor) -> Res<U> {
         let parsed_module = self.get_ctx().get_or_fetch_file(&addr.file, anchor)?;
         match addr.visibility {
             Visibility::Local => {
@@ -1092,6 +1124,7 @@ impl<'a, R: FileManager> FrontendCtx<'a, R> {
             recursive_generic_uuids: BTreeSet::new(),
             jsdoc_cache_by_file: BTreeMap::new(),
             recursion_depth: 0,
+            resolution_depth: 0,
         }
     }
 
